@@ -265,7 +265,10 @@ U_FFROWS = Unit(P + '/far-field-tables', ['Far_Field_Pattern.db_as_mininec', 'Fa
 
 
 # ---------------------------------------------------------------- near-field points: order (small concrete counts)
+import os as _os
 ORDER_SHAPES = [(2, 3, 2), (3, 1, 2), (1, 2, 1)]
+if _os.environ.get('VERIF_TIER_EFFECTIVE') == 'thorough':
+    ORDER_SHAPES += [(3, 3, 2), (2, 2, 3), (4, 1, 1), (1, 1, 4), (3, 2, 3)]
 
 
 def t_point_order(eng):
